@@ -111,7 +111,71 @@ func (x *Exec) externCall(st *State, c *ssa.Call, f *ssa.Function, args []SV) SV
 				tag += "." + g.Name()
 			}
 		}
-		return boolSV(App("ext."+tag, SBool, ts...))
+		if name == "unicode.In" && len(c.Call.Args) == 2 {
+			// variadic tables: recover the globals stored into the varargs array
+			if sl, ok := c.Call.Args[1].(*ssa.Slice); ok {
+				if al, ok := sl.X.(*ssa.Alloc); ok {
+					names := map[int64]string{}
+					for _, r := range *al.Referrers() {
+						ia, ok := r.(*ssa.IndexAddr)
+						if !ok {
+							continue
+						}
+						idx, ok := ia.Index.(*ssa.Const)
+						if !ok {
+							continue
+						}
+						for _, r2 := range *ia.Referrers() {
+							if stt, ok := r2.(*ssa.Store); ok {
+								if u, ok := stt.Val.(*ssa.UnOp); ok {
+									if g, ok := u.X.(*ssa.Global); ok {
+										names[idx.Int64()] = g.Name()
+									}
+								}
+							}
+						}
+					}
+					for k := int64(0); k < int64(len(names)); k++ {
+						tag += "." + names[k]
+					}
+				}
+			}
+		}
+		res := App("ext."+tag, SBool, ts...)
+		if tag == "unicode.Is.Zs" && len(ts) == 1 {
+			// the only ASCII character of category Zs is U+0020 (Unicode character database)
+			st.assume(Implies(And(Le(IntC(0), ts[0]), Le(ts[0], IntC(0x7f))), Eq(res, Eq(ts[0], IntC(0x20)))))
+		}
+		return boolSV(res)
+	case "unicode/utf8.DecodeRune", "unicode/utf8.DecodeLastRune", "unicode/utf8.DecodeRuneInString", "unicode/utf8.DecodeLastRuneInString":
+		s := args[0]
+		var arr *Term
+		if s.Arr != nil {
+			arr = s.Arr
+		} else {
+			key := "E:byte"
+			if isStringType(s.Ty) {
+				key = "S:byte"
+			}
+			x.registerKey(key, SArr2)
+			arr = Select(x.heapGet(st.heap, key, SArr2), s.Id)
+		}
+		short := name[len("unicode/utf8."):]
+		r := App("ext.utf8."+short, SInt, arr, s.Off, s.Len)
+		size := App("ext.utf8."+short+".size", SInt, arr, s.Off, s.Len)
+		st.assume(And(Le(IntC(0), r), Le(r, IntC(0x10FFFF))))
+		st.assume(Ite(Eq(s.Len, IntC(0)), And(Eq(size, IntC(0)), Eq(r, IntC(0xFFFD))), And(Le(IntC(1), size), Le(size, IntC(4)), Le(size, s.Len))))
+		// ASCII: a byte below 0x80 decodes to itself, width 1
+		var edge *Term
+		if short == "DecodeRune" || short == "DecodeRuneInString" {
+			edge = x.byteAt(st, s, IntC(0))
+		} else {
+			edge = x.byteAt(st, s, Sub(s.Len, IntC(1)))
+		}
+		st.assume(Implies(And(Gt(s.Len, IntC(0)), Lt(edge, IntC(0x80))), And(Eq(r, edge), Eq(size, IntC(1)))))
+		st.assume(Implies(And(Gt(s.Len, IntC(0)), Ge(edge, IntC(0x80))), Ge(r, IntC(0x80))))
+		rt := c.Type().(*types.Tuple)
+		return SV{K: KTuple, Ty: c.Type(), Fields: []SV{intSV(r, rt.At(0).Type()), intSV(size, rt.At(1).Type())}}
 	}
 	x.fail("call to external function %s (no assumed contract)", name)
 	return SV{}
